@@ -101,7 +101,8 @@ def theorems_of(module):
         m = re.match(r"\s*end\s+(\S+)", line)
         if m and ns and ns[-1].split(".")[-1] == m.group(1).split(".")[-1]:
             ns.pop(); continue
-        m = re.match(r"\s*(?:@\[[^\]]*\]\s*)?(?:private\s+|protected\s+)?theorem\s+([^\s:({\[]+)", line)
+        # private theorems are helpers of the non-vacuity examples, not obligations
+        m = re.match(r"\s*(?:@\[[^\]]*\]\s*)?(?:protected\s+)?theorem\s+([^\s:({\[]+)", line)
         if m:
             names.append(".".join(ns + [m.group(1)]))
     return names
@@ -113,16 +114,30 @@ def strip_comments(src):
     return src
 
 
-def forbidden_tokens():
+def import_closure(modules):
+    """the Ruschm* source files a set of modules depends on (transitively)"""
+    seen, todo = set(), list(modules)
+    while todo:
+        m = todo.pop()
+        if m in seen or not m.startswith("Ruschm"):
+            continue
+        path = os.path.join(LEAN, m.replace(".", "/") + ".lean")
+        if not os.path.exists(path):
+            continue
+        seen.add(m)
+        for im in re.findall(r"^\s*(?:public\s+)?import\s+(\S+)", open(path).read(), re.M):
+            todo.append(im)
+    return sorted(seen)
+
+
+def forbidden_tokens(modules):
     bad = []
-    for d in ("RuschmModel", "RuschmSpec", "RuschmProofs", "RuschmGen"):
-        for dp, _, fs in os.walk(os.path.join(LEAN, d)):
-            for f in fs:
-                if f.endswith(".lean"):
-                    src = strip_comments(open(os.path.join(dp, f)).read())
-                    src = re.sub(r'"(?:[^"\\]|\\.)*"', '""', src)
-                    for m in FORBIDDEN.finditer(src):
-                        bad.append((os.path.join(dp, f), m.group(0).strip()))
+    for m in import_closure(modules):
+        path = os.path.join(LEAN, m.replace(".", "/") + ".lean")
+        src = strip_comments(open(path).read())
+        src = re.sub(r'"(?:[^"\\]|\\.)*"', '""', src)
+        for x in FORBIDDEN.finditer(src):
+            bad.append((path, x.group(0).strip()))
     return bad
 
 
@@ -333,7 +348,7 @@ def standard_proof_phase(rep, modules, directed_search=None):
         broken = {"broken": "proof obligation: lake build %s failed" % " ".join(modules),
                   "theorem_files": modules, "errors": errs[:10], "output": out[-3000:]}
     else:
-        bad = forbidden_tokens()
+        bad = forbidden_tokens(modules)
         ok, problems = axiom_audit(modules)
         rep.discharged = len(ok)
         if bad or problems:
